@@ -249,7 +249,8 @@ class Env:
         # status -2 = gorunner could not start the process at all (fork failure, binary being replaced): not an
         # observation of the implementation.  Run those cases again once; if it persists, it is a harness failure.
         if _retry:
-            bad = set(k for k, v in out.items() if any(d['status'] == -2 for d in v))
+            # (also: a failing exit status with an empty stderr - the pipe was cut before the diagnostic was copied)
+            bad = set(k for k, v in out.items() if any(d['status'] == -2 or (d['status'] in (65, 70) and d['stderr'] == b'' and not d['timeout']) for d in v))
             if bad:
                 again = self.run_impl([c for c in cases if c['id'] in bad], timeout_ms=timeout_ms, _retry=False)
                 out.update(again)
@@ -269,7 +270,7 @@ class Env:
                 out[d['id']] = d
         return out
 
-    def run_model(self, lines, fuel=200000, seed=0, need_oracle=True, shards=None, case_timeout=10):
+    def run_model(self, lines, fuel=200000, seed=0, need_oracle=True, shards=None, case_timeout=10, _retry=True):
         """lines: list of tab-separated case lines (without newline).  Returns {id: [fields...]}"""
         shards = shards or int(JOBS)
         n = len(lines)
@@ -303,6 +304,13 @@ class Env:
                 if line:
                     fs = line.split('\t')
                     out[fs[0]] = fs[1:]
+        # a per-case time limit that strikes on a loaded machine is not an observation of the model: evaluate those
+        # cases again, one process, six times the limit (a case that really is too slow still ends as noresult:timeout)
+        if _retry:
+            slow = set(k for k, v in out.items() if v and v[0] == 'noresult:timeout')
+            if 0 < len(slow) <= 40:
+                again = [l for l in lines if l.split('\t')[1] in slow]
+                out.update(self.run_model(again, fuel=fuel, seed=seed, need_oracle=need_oracle, shards=1, case_timeout=case_timeout * 6, _retry=False))
         return out
 
 
